@@ -2,6 +2,8 @@
 
    In the model every Go operation that can panic is an explicit [Panic] result:
      min_deposit      sdk.Int.Mul above 255 bits                (known finding K1)
+     add_deposit_amt  sdk.Int.Add above 255 bits, the deposit top-up of Update / Enable
+                                                                (known finding K6)
      add_earned_fee   provider without an owner record
      h_respond        slash / refund failing on the malformed-output path, context vanished
      h_withdraw       Coins.Sub going negative
@@ -10,9 +12,12 @@
 
    Results (statements repeated in Properties/C20.v):
      C20_no_panic_msg       no message makes its handler panic in a state satisfying Inv,
-                            under the exclusion X-K1 ([k1_op]) for that one message
+                            under the exclusions X-K1 ([k1_op]) and X-K6 ([k6_op]) for that
+                            one message
      C20_no_panic_reach     the same for every reachable state, as an Outcome of [step]
      C20_no_panic_reachK1   the same with X-K1 as a purely syntactic condition on the inputs
+     C20_no_panic_reachK1S  the same with X-K6 also as a condition on the inputs ([k6_in]: the
+                            top-up plus the supply of the genesis state fits 255 bits)
      C20_no_panic_run       no step of a whole history returns RPanic
      C20_expire_loop_clean, C20_no_panic_endblock
                             inside EndBlock slash is never Err / Panic and refund_fee never
@@ -21,9 +26,11 @@
                             the EndBlock that propagates every error instead of dropping it
                             returns Ok of exactly the state the model's EndBlock computes
      C20_K1_*_refuted       without X-K1 the message theorem is false (finding K1)
+     C20_K6_*_refuted, h_*_k6_sharp
+                            without X-K6 the message theorem is false (finding K6)
      C20_due_sorted_perm, C20_due_sorted, C20_due_canonical, C20_step_deterministic
-   No panic path was found that Inv + X-K1 do not exclude.  The message theorem does not use
-   wf_op (H-txid, X-K2 play no role in panics); it is kept in the statement because the
+   No panic path was found that Inv + X-K1 + X-K6 do not exclude.  The message theorem does not
+   use wf_op (H-txid, X-K2 play no role in panics); it is kept in the statement because the
    invariant it assumes is only known for states reached through wf_op operations.
 
    The exclusion X-K1: why two forms.
@@ -39,13 +46,25 @@
    of "X-K1 excludes inputs", but it must then hold along the whole history: [ReachK1] is
    reachability through such inputs, [I_k1] (every stored price is bounded) is its
    invariant, and I_k1 + k1_in give k1_op.  Both final theorems are stated; the first is the
-   stronger one, the second has the hypothesis one can check on a message stream. *)
+   stronger one, the second has the hypothesis one can check on a message stream.
+
+   The exclusion X-K6, likewise in two forms.
+   [k6_op s o] constrains the ONE Update / Enable being executed: the deposit of the binding
+   it names plus the top-up it carries is below 2^255.  It is the weakest such hypothesis
+   ([h_update_k6_sharp], [h_enable_k6_sharp]: a message that reaches the Add and violates it
+   panics), and it holds trivially for a message without a top-up ([k6_op_no_topup]).
+   [k6_in S0 o] is the input form: the top-up plus S0 is below 2^255, where S0 is the supply
+   of the genesis state.  It implies k6_op in every reachable state ([k6_in_op]) because a
+   binding deposit is at most the Deposit account's balance (I_deposit), a balance is at most
+   the supply (I_bank), and the supply never increases (Proofs/SupplyMono.v: only the burn of
+   Slash writes it).  Unlike k1_in it is needed for the executed message only, not along the
+   history: [ReachK1S cfg S0] is ReachK1 remembering the genesis supply, nothing more. *)
 From Coq Require Import List ZArith Bool Lia Permutation Sorted.
 From SVC Require Import Base.AMap Base.Res Base.Dec Model.Types Model.Pricing
   Model.Handlers Model.EndBlock Model.Step Proofs.Inv Proofs.Lemmas Proofs.InvWf
   Proofs.DecProofs Proofs.BankLemmas Proofs.ReqLemmas Proofs.PFrame Proofs.InvBank
   Proofs.InvEarn Proofs.InvEscrow Proofs.StepSpecs_earn Proofs.InvAll Proofs.ReachRun
-  Proofs.K1Enable Proofs.InvSched.
+  Proofs.K1Enable Proofs.InvSched Proofs.SupplyMono.
 From SVC Require Proofs.QueryProofs.
 Import ListNotations.
 Open Scope Z_scope.
@@ -111,6 +130,70 @@ Lemma Inv_avail_bound cfg s : Inv cfg s -> avail_bound cfg s.
 Proof. intros H. apply index_avail_bound, H. Qed.
 
 (* ------------------------------------------------------------------ *)
+(* X-K6 *)
+
+(* the exclusion for the message being executed: the deposit of the binding plus the top-up
+   the message carries fits an sdk.Int.  It speaks about the top-up only when the message
+   carries one that passes validateDeposit (one_base_coin), and about the binding only when
+   it exists; an Update that also changes the qos adds to the same deposit. *)
+Definition k6_op (s : State) (o : Op) : Prop :=
+  match o with
+  | OUpdate svc prov dep _ _ _ _ =>
+      forall b a, get (svc, prov) (binds s) = Some b -> one_base_coin dep = Ok a ->
+        b_deposit b + a < INT_LIMIT
+  | OEnable svc prov dep _ _ =>
+      forall b a, get (svc, prov) (binds s) = Some b -> one_base_coin dep = Ok a ->
+        b_deposit b + a < INT_LIMIT
+  | _ => True
+  end.
+
+(* the exclusion as a condition on the inputs and on the supply S0 of the genesis state:
+   the top-up, added to everything that was ever minted, fits an sdk.Int *)
+Definition k6_in (S0 : Z) (o : Op) : Prop :=
+  match o with
+  | OUpdate _ _ dep _ _ _ _ => forall a, one_base_coin dep = Ok a -> S0 + a < INT_LIMIT
+  | OEnable _ _ dep _ _ => forall a, one_base_coin dep = Ok a -> S0 + a < INT_LIMIT
+  | _ => True
+  end.
+
+Lemma one_base_coin_nonempty dep a : one_base_coin dep = Ok a -> coins_empty dep = false.
+Proof. destruct dep; cbn; try discriminate. reflexivity. Qed.
+
+(* a message without a top-up needs no exclusion *)
+Lemma k6_op_no_topup s o :
+  match o with
+  | OUpdate _ _ dep _ _ _ _ => coins_empty dep = true
+  | OEnable _ _ dep _ _ => coins_empty dep = true
+  | _ => True
+  end -> k6_op s o.
+Proof.
+  destruct o; cbn [k6_op]; try (intros; exact I);
+    intros He b a _ Ha; apply one_base_coin_nonempty in Ha; congruence.
+Qed.
+
+Lemma k6_in_mono S S' o : S' <= S -> k6_in S o -> k6_in S' o.
+Proof.
+  intros Hle. destruct o; cbn [k6_in]; try (intros; exact I);
+    intros H a Ha; specialize (H a Ha); lia.
+Qed.
+
+(* every binding deposit is backed by the supply (I_deposit, I_bank) ... *)
+Lemma k6_sup_op cfg s o : BDM cfg s -> k6_in (supply s) o -> k6_op s o.
+Proof.
+  intros HB. destruct o; cbn [k6_op k6_in]; try (intros; exact I);
+    intros H b a Gb Ha; specialize (H a Ha);
+    pose proof (BDM_deposit_le_supply cfg s _ b HB Gb); lia.
+Qed.
+
+(* ... and the supply never exceeds that of the genesis state (SupplyMono.ReachS_supply_le) *)
+Theorem k6_in_op cfg S0 s o : ReachS cfg S0 s -> k6_in S0 o -> k6_op s o.
+Proof.
+  intros Hr Hk. apply (k6_sup_op cfg).
+  - apply Reach_BDM. eapply ReachS_Reach; eauto.
+  - eapply k6_in_mono; [|exact Hk]. eapply ReachS_supply_le; eauto.
+Qed.
+
+(* ------------------------------------------------------------------ *)
 (* taking apart  <monadic term> = Panic  (the goal is False) *)
 
 Ltac np H :=
@@ -132,6 +215,30 @@ Proof. destruct c; cbn; try discriminate. destruct (0 <? amt); discriminate. Qed
 Lemma opt_coin_no_panic (dep : Coins) :
   (if coins_empty dep then Ok 0 else one_base_coin dep) <> Panic.
 Proof. destruct (coins_empty dep); [discriminate|apply one_base_coin_no_panic]. Qed.
+
+(* binding.Deposit.Add(deposit...) *)
+Lemma add_deposit_amt_cases cur dep :
+  (exists a, one_base_coin dep = Ok a /\ cur + a < INT_LIMIT /\ add_deposit_amt cur dep = Ok a)
+  \/ (exists a, one_base_coin dep = Ok a /\ INT_LIMIT <= cur + a /\ add_deposit_amt cur dep = Panic)
+  \/ (one_base_coin dep = Err /\ add_deposit_amt cur dep = Err).
+Proof.
+  unfold add_deposit_amt. destruct (one_base_coin dep) as [a| |] eqn:E.
+  - cbn [bind]. destruct (cur + a <? INT_LIMIT) eqn:El; b2p; [left|right; left]; exists a; auto.
+  - right. right. auto.
+  - exfalso. exact (one_base_coin_no_panic _ E).
+Qed.
+
+Lemma add_deposit_amt_no_panic cur dep :
+  (forall a, one_base_coin dep = Ok a -> cur + a < INT_LIMIT) -> add_deposit_amt cur dep <> Panic.
+Proof.
+  intros Hk H. destruct (add_deposit_amt_cases cur dep) as [(a & _ & _ & E)|[(a & Ha & Hge & _)|(_ & E)]];
+    try congruence. specialize (Hk a Ha). lia.
+Qed.
+
+Lemma opt_add_no_panic cur (dep : Coins) :
+  (forall a, one_base_coin dep = Ok a -> cur + a < INT_LIMIT) ->
+  (if coins_empty dep then Ok 0 else add_deposit_amt cur dep) <> Panic.
+Proof. intros Hk. destruct (coins_empty dep); [discriminate|now apply add_deposit_amt_no_panic]. Qed.
 
 Lemma pay_deposit_no_panic s k owner amt : pay_deposit s k owner amt <> Panic.
 Proof. unfold pay_deposit. intros H. np H. Qed.
@@ -165,10 +272,13 @@ Qed.
 Lemma h_update_no_panic cfg s svc prov dep pr qos owner ok :
   avail_bound cfg s ->
   k1_op cfg s (OUpdate svc prov dep pr qos owner ok) ->
+  k6_op s (OUpdate svc prov dep pr qos owner ok) ->
   h_update cfg s svc prov dep pr qos owner ok <> Panic.
 Proof.
-  intros Hav Hk H. unfold h_update in H. np H. rename a into b, Ha into Gb.
-  apply bind_panic in H. destruct H as [H|(amt & _ & H)]; [exact (opt_coin_no_panic _ H)|].
+  intros Hav Hk Hk6 H. unfold h_update in H. np H. rename a into b, Ha into Gb.
+  apply bind_panic in H. destruct H as [H|(amt & _ & H)].
+  { revert H. apply opt_add_no_panic. intros a Ha. cbn [k6_op] in Hk6.
+    specialize (Hk6 b a Gb Ha). destruct (qos =? 0); exact Hk6. }
   apply bind_panic in H. destruct H as [H|(newp & Hnewp & H)].
   { destruct pr as [[raw|]|]; try discriminate. np H. }
   apply bind_panic in H. destruct H as [H|(u & _ & H)].
@@ -190,10 +300,12 @@ Proof. unfold h_disable. intros H. np H. Qed.
 
 Lemma h_enable_no_panic cfg s svc prov dep owner ok :
   k1_op cfg s (OEnable svc prov dep owner ok) ->
+  k6_op s (OEnable svc prov dep owner ok) ->
   h_enable cfg s svc prov dep owner ok <> Panic.
 Proof.
-  intros Hk H. unfold h_enable in H. np H. cbn [k1_op] in Hk.
-  apply bind_panic in H. destruct H as [H|(amt & _ & H)]; [exact (opt_coin_no_panic _ H)|].
+  intros Hk Hk6 H. unfold h_enable in H. np H. cbn [k1_op] in Hk. rename a into b, Ha into Gb.
+  apply bind_panic in H. destruct H as [H|(amt & _ & H)].
+  { revert H. apply opt_add_no_panic. intros a Ha. exact (Hk6 b a Gb Ha). }
   apply bind_panic in H. destruct H as [H|(md & _ & H)]; [exact (min_deposit_no_panic _ _ Hk H)|].
   np H.
   apply bind_panic in H. destruct H as [H|(s1 & _ & H)]; [exact (opt_pay_no_panic _ _ _ _ _ H)|].
@@ -389,12 +501,12 @@ Qed.
 (* every message *)
 
 Theorem C20_no_panic_msg cfg s o :
-  wf_cfg cfg -> Inv cfg s -> wf_op s o -> k1_op cfg s o -> handle cfg s o <> Panic.
+  wf_cfg cfg -> Inv cfg s -> wf_op s o -> k1_op cfg s o -> k6_op s o -> handle cfg s o <> Panic.
 Proof.
-  intros Hcfg HI _ Hk. destruct o; cbn [handle].
+  intros Hcfg HI _ Hk Hk6. destruct o; cbn [handle].
   - apply h_define_no_panic.
   - now apply h_bind_no_panic.
-  - apply h_update_no_panic; [now apply Inv_avail_bound|assumption].
+  - apply h_update_no_panic; [now apply Inv_avail_bound|assumption|assumption].
   - apply h_disable_no_panic.
   - now apply h_enable_no_panic.
   - apply h_refund_deposit_no_panic.
@@ -419,20 +531,42 @@ Lemma step_outcome cfg s o : snd (step cfg s o) = RPanic <-> handle cfg s o = Pa
 Proof. unfold step. destruct (handle cfg s o); cbn [snd]; split; congruence. Qed.
 
 Theorem C20_no_panic_reach cfg s o :
-  wf_cfg cfg -> Reach cfg s -> wf_op s o -> k1_op cfg s o -> snd (step cfg s o) <> RPanic.
+  wf_cfg cfg -> Reach cfg s -> wf_op s o -> k1_op cfg s o -> k6_op s o ->
+  snd (step cfg s o) <> RPanic.
 Proof.
-  intros Hcfg Hr Ho Hk. rewrite step_outcome.
+  intros Hcfg Hr Ho Hk Hk6. rewrite step_outcome.
   apply C20_no_panic_msg; try assumption. now apply Reach_Inv.
 Qed.
 
-(* the only messages that need the exclusion *)
+(* the only messages that need an exclusion: Bind, Enable, and an Update that carries a
+   pricing (X-K1) or a deposit top-up (X-K6) *)
 Corollary C20_no_panic_no_pricing cfg s o :
   wf_cfg cfg -> Reach cfg s -> wf_op s o ->
-  match o with OBind _ _ _ _ _ _ _ | OUpdate _ _ _ (Some _) _ _ _ | OEnable _ _ _ _ _ => False | _ => True end ->
+  match o with
+  | OBind _ _ _ _ _ _ _ | OUpdate _ _ _ (Some _) _ _ _ | OEnable _ _ _ _ _ => False
+  | OUpdate _ _ dep None _ _ _ => coins_empty dep = true
+  | _ => True
+  end ->
   snd (step cfg s o) <> RPanic.
 Proof.
   intros Hcfg Hr Ho Hk. apply C20_no_panic_reach; try assumption.
-  destruct o; try exact I; try contradiction. destruct pr; [contradiction|exact I].
+  - destruct o; try exact I; try contradiction. destruct pr; [contradiction|exact I].
+  - apply k6_op_no_topup. destruct o; try exact I; try contradiction.
+    destruct pr; [contradiction|exact Hk].
+Qed.
+
+(* Enable without a top-up needs X-K1 only; Update / Enable with a top-up and an acceptable
+   price need X-K6 only *)
+Corollary C20_no_panic_no_topup cfg s o :
+  wf_cfg cfg -> Reach cfg s -> wf_op s o -> k1_op cfg s o ->
+  match o with
+  | OUpdate _ _ dep _ _ _ _ => coins_empty dep = true
+  | OEnable _ _ dep _ _ => coins_empty dep = true
+  | _ => True
+  end ->
+  snd (step cfg s o) <> RPanic.
+Proof.
+  intros Hcfg Hr Ho Hk He. apply C20_no_panic_reach; try assumption. now apply k6_op_no_topup.
 Qed.
 
 (* ------------------------------------------------------------------ *)
@@ -496,11 +630,47 @@ Lemma ReachK1_I_k1 cfg s : ReachK1 cfg s -> I_k1 cfg s.
 Proof. induction 1; [apply I_k1_init|now apply I_k1_step]. Qed.
 
 Theorem C20_no_panic_reachK1 cfg s o :
-  wf_cfg cfg -> ReachK1 cfg s -> wf_op s o -> k1_in cfg o -> snd (step cfg s o) <> RPanic.
+  wf_cfg cfg -> ReachK1 cfg s -> wf_op s o -> k1_in cfg o -> k6_op s o ->
+  snd (step cfg s o) <> RPanic.
 Proof.
-  intros Hcfg Hr Ho Hk. apply C20_no_panic_reach; try assumption.
+  intros Hcfg Hr Ho Hk Hk6. apply C20_no_panic_reach; try assumption.
   - now apply ReachK1_Reach.
   - apply k1_in_op; [now apply ReachK1_I_k1|assumption].
+Qed.
+
+(* X-K1 and X-K6 both as conditions on inputs: ReachK1 that remembers the supply S0 of the
+   genesis state.  X-K6 need not hold along the history (a panicking message leaves no trace
+   and the bound on the deposits comes from Inv and the monotonicity of the supply), only
+   for the message being executed. *)
+Inductive ReachK1S (cfg : Params) (S0 : Z) : State -> Prop :=
+| ReachK1S_init h0 t0 f : 1 <= h0 -> 0 <= t0 -> wf_funding f -> supply (init h0 t0 f) = S0 ->
+    ReachK1S cfg S0 (init h0 t0 f)
+| ReachK1S_step s o : ReachK1S cfg S0 s -> wf_op s o -> k1_in cfg o ->
+    ReachK1S cfg S0 (fst (step cfg s o)).
+
+Lemma ReachK1S_ReachK1 cfg S0 s : ReachK1S cfg S0 s -> ReachK1 cfg s.
+Proof. induction 1; [now apply ReachK1_init|now apply ReachK1_step]. Qed.
+
+Lemma ReachK1S_ReachS cfg S0 s : ReachK1S cfg S0 s -> ReachS cfg S0 s.
+Proof. induction 1; [now apply ReachS_init|now apply ReachS_step]. Qed.
+
+Lemma ReachK1_ReachK1S cfg s : ReachK1 cfg s -> exists S0, ReachK1S cfg S0 s.
+Proof.
+  induction 1 as [h0 t0 f H1 H2 H3|s o _ [S0 IH] Ho Hk].
+  - exists (supply (init h0 t0 f)). now apply ReachK1S_init.
+  - exists S0. now apply ReachK1S_step.
+Qed.
+
+Lemma ReachK1S_supply_le cfg S0 s : ReachK1S cfg S0 s -> supply s <= S0.
+Proof. intros H. eapply ReachS_supply_le, ReachK1S_ReachS, H. Qed.
+
+Theorem C20_no_panic_reachK1S cfg S0 s o :
+  wf_cfg cfg -> ReachK1S cfg S0 s -> wf_op s o -> k1_in cfg o -> k6_in S0 o ->
+  snd (step cfg s o) <> RPanic.
+Proof.
+  intros Hcfg Hr Ho Hk Hk6. apply C20_no_panic_reachK1; try assumption.
+  - eapply ReachK1S_ReachK1; eauto.
+  - apply (k6_in_op cfg S0); [now apply ReachK1S_ReachS|assumption].
 Qed.
 
 (* a whole history: the outcomes of its steps *)
@@ -517,16 +687,37 @@ Fixpoint k1_run (cfg : Params) (s : State) (ops : list Op) : Prop :=
   | o :: t => wf_op s o /\ k1_in cfg o /\ k1_run cfg (fst (step cfg s o)) t
   end.
 
-Theorem C20_no_panic_run cfg s ops :
-  wf_cfg cfg -> ReachK1 cfg s -> k1_run cfg s ops ->
-  ~ In RPanic (outcomes cfg s ops) /\ ReachK1 cfg (run cfg s ops).
+Lemma ReachK1_run cfg s ops : ReachK1 cfg s -> k1_run cfg s ops -> ReachK1 cfg (run cfg s ops).
+Proof.
+  revert s. induction ops as [|o t IH]; intros s Hr Hk; [exact Hr|].
+  destruct Hk as (Ho & Hko & Ht). unfold run. cbn [fold_left].
+  apply IH; [now apply ReachK1_step|exact Ht].
+Qed.
+
+(* the same with the input form of X-K6 for every message of the history; S0 is the supply of
+   the genesis state *)
+Fixpoint k16_run (cfg : Params) (S0 : Z) (s : State) (ops : list Op) : Prop :=
+  match ops with
+  | [] => True
+  | o :: t => wf_op s o /\ k1_in cfg o /\ k6_in S0 o /\ k16_run cfg S0 (fst (step cfg s o)) t
+  end.
+
+Lemma k16_run_k1_run cfg S0 s ops : k16_run cfg S0 s ops -> k1_run cfg s ops.
+Proof.
+  revert s. induction ops as [|o t IH]; intros s H; [exact I|].
+  destruct H as (Ho & Hk & _ & Ht). cbn [k1_run]. auto.
+Qed.
+
+Theorem C20_no_panic_run cfg S0 s ops :
+  wf_cfg cfg -> ReachK1S cfg S0 s -> k16_run cfg S0 s ops ->
+  ~ In RPanic (outcomes cfg s ops) /\ ReachK1S cfg S0 (run cfg s ops).
 Proof.
   intros Hcfg. revert s. induction ops as [|o t IH]; intros s Hr Hk; cbn [outcomes In].
   - split; [tauto|exact Hr].
-  - destruct Hk as (Ho & Hko & Ht).
-    destruct (IH (fst (step cfg s o))) as (IH1 & IH2); [now apply ReachK1_step|exact Ht|].
+  - destruct Hk as (Ho & Hko & Hk6 & Ht).
+    destruct (IH (fst (step cfg s o))) as (IH1 & IH2); [now apply ReachK1S_step|exact Ht|].
     split; [|exact IH2]. intros [E|Hin]; [|contradiction].
-    exact (C20_no_panic_reachK1 cfg s o Hcfg Hr Ho Hko E).
+    exact (C20_no_panic_reachK1S cfg S0 s o Hcfg Hr Ho Hko Hk6 E).
 Qed.
 
 (* ------------------------------------------------------------------ *)
@@ -814,6 +1005,153 @@ Example C20_K1_endblock_unaffected c n :
 Proof. apply C20_expire_loop_clean; [exact k1_cfg_wf|]. apply Reach_Inv; [exact k1_cfg_wf|exact k1_reach]. Qed.
 
 (* ------------------------------------------------------------------ *)
+(* Known finding K6: keeper.UpdateServiceBinding and keeper.EnableServiceBinding execute
+   binding.Deposit = binding.Deposit.Add(deposit...) right after validateDeposit and before
+   the owner pays anything; sdk.Int.Add panics when the sum needs more than 255 bits.  The
+   owner does not have to own the amount.  Without X-K6 the message theorem is false.
+
+   k6_op is sharp: a message that passes the checks preceding the Add and violates k6_op
+   makes the handler panic, whatever the rest of the message and of the state. *)
+
+Lemma h_update_k6_sharp cfg s svc prov dep pr qos owner b a :
+  get (svc, prov) (binds s) = Some b -> (b_owner b =? owner) = true ->
+  (qos =? 0) || (qos <=? p_max_timeout cfg) = true ->
+  one_base_coin dep = Ok a -> INT_LIMIT <= b_deposit b + a ->
+  h_update cfg s svc prov dep pr qos owner true = Panic.
+Proof.
+  intros Gb Ho Hq Ha Hge. unfold h_update. rewrite Gb. cbn [guard of_opt bind].
+  rewrite Ho, Hq. cbn [guard]. rewrite (one_base_coin_nonempty _ _ Ha).
+  assert (Ed : b_deposit (if qos =? 0 then b else setb_qos b qos) = b_deposit b)
+    by (destruct (qos =? 0); reflexivity).
+  rewrite Ed.
+  destruct (add_deposit_amt_cases (b_deposit b) dep) as [(a' & Ha' & Hlt & _)|[(a' & _ & _ & E)|(E & _)]].
+  - rewrite Ha in Ha'. injection Ha' as <-. lia.
+  - rewrite E. reflexivity.
+  - congruence.
+Qed.
+
+Lemma h_enable_k6_sharp cfg s svc prov dep owner b a :
+  get (svc, prov) (binds s) = Some b -> (b_owner b =? owner) = true -> b_avail b = false ->
+  one_base_coin dep = Ok a -> INT_LIMIT <= b_deposit b + a ->
+  h_enable cfg s svc prov dep owner true = Panic.
+Proof.
+  intros Gb Ho Hav Ha Hge. unfold h_enable. rewrite Gb. cbn [guard of_opt bind].
+  rewrite Ho, Hav. cbn [guard negb]. rewrite (one_base_coin_nonempty _ _ Ha).
+  destruct (add_deposit_amt_cases (b_deposit b) dep) as [(a' & Ha' & Hlt & _)|[(a' & _ & _ & E)|(E & _)]].
+  - rewrite Ha in Ha'. injection Ha' as <-. lia.
+  - rewrite E. reflexivity.
+  - congruence.
+Qed.
+
+(* the largest amount an sdk.Int holds; it passes validateDeposit *)
+Definition k6_top : Coins := CBase (2 ^ 255 - 1).
+
+(* MsgUpdateServiceBinding: the state k1u_s (one binding with deposit 5000, price 2, every
+   stored price within X-K1), a top-up of 2^255 - 1 and nothing else *)
+Definition k6u_op : Op := OUpdate 1 7 k6_top None 0 42 true.
+
+Lemma k1u_reachK1S : ReachK1S k1_cfg 100000 k1u_s.
+Proof.
+  unfold k1u_s, run. cbn [fold_left].
+  apply ReachK1S_step; [apply ReachK1S_step|exact I|].
+  - apply ReachK1S_init; [lia|lia|wf_funding_tac|reflexivity].
+  - exact I.
+  - exact I.
+  - unfold k1_in, k1_bound. zc.
+Qed.
+
+Theorem C20_K6_update_refuted :
+  exists cfg s o, wf_cfg cfg /\ Reach cfg s /\ wf_op s o /\ k1_op cfg s o /\ handle cfg s o = Panic.
+Proof.
+  exists k1_cfg, k1u_s, k6u_op.
+  split; [exact k1_cfg_wf|].
+  split; [exact (ReachK1_Reach _ _ (ReachK1S_ReachK1 _ _ _ k1u_reachK1S))|].
+  split; [exact I|]. split; [exact I|]. vm_compute. reflexivity.
+Qed.
+
+(* sharper: the history satisfies both exclusions in their input forms, the message satisfies
+   X-K1, passes every check that precedes the Add, and violates exactly X-K6 (both forms) *)
+Theorem C20_K6_update_witness :
+  wf_cfg k1_cfg /\ ReachK1S k1_cfg 100000 k1u_s /\ wf_op k1u_s k6u_op
+  /\ k1_in k1_cfg k6u_op /\ k1_op k1_cfg k1u_s k6u_op
+  /\ ~ k6_in 100000 k6u_op /\ ~ k6_op k1u_s k6u_op
+  /\ snd (step k1_cfg k1u_s k6u_op) = RPanic.
+Proof.
+  split; [exact k1_cfg_wf|]. split; [exact k1u_reachK1S|]. split; [exact I|].
+  split; [exact I|]. split; [exact I|].
+  split; [|split; [|vm_compute; reflexivity]].
+  - intros H. cbn [k6_in k6u_op] in H.
+    specialize (H (2 ^ 255 - 1) ltac:(vm_compute; reflexivity)). revert H. vm_compute.
+    intros H; discriminate H.
+  - intros H. cbn [k6_op k6u_op] in H.
+    destruct (get (1, 7) (binds k1u_s)) as [b|] eqn:G; [|vm_compute in G; discriminate G].
+    specialize (H b (2 ^ 255 - 1) eq_refl ltac:(vm_compute; reflexivity)).
+    vm_compute in G. injection G as <-. revert H. vm_compute. intros H; discriminate H.
+Qed.
+
+(* MsgEnableServiceBinding: the same binding, disabled first *)
+Definition k6e_s : State :=
+  run k1_cfg (init 1 0 [(42, 100000)])
+    [ODefine 1 5 true; OBind 1 7 (CBase 5000) (Some (mkRaw (2 * ONE) [] [])) 10 42 true;
+     ODisable 1 7 42 true].
+Definition k6e_op : Op := OEnable 1 7 k6_top 42 true.
+
+Lemma k6e_reachK1S : ReachK1S k1_cfg 100000 k6e_s.
+Proof.
+  unfold k6e_s, run. cbn [fold_left].
+  do 3 (apply ReachK1S_step; [|exact I|first [exact I|unfold k1_in, k1_bound; zc]]).
+  apply ReachK1S_init; [lia|lia|wf_funding_tac|reflexivity].
+Qed.
+
+Theorem C20_K6_enable_refuted :
+  exists cfg s o, wf_cfg cfg /\ Reach cfg s /\ wf_op s o /\ k1_op cfg s o /\ handle cfg s o = Panic.
+Proof.
+  exists k1_cfg, k6e_s, k6e_op.
+  split; [exact k1_cfg_wf|].
+  split; [exact (ReachK1_Reach _ _ (ReachK1S_ReachK1 _ _ _ k6e_reachK1S))|].
+  split; [exact I|]. split; [|vm_compute; reflexivity].
+  cbn [k1_op k6e_op]. apply I_k1_pricing_of. eapply ReachK1_I_k1, ReachK1S_ReachK1, k6e_reachK1S.
+Qed.
+
+Theorem C20_K6_enable_witness :
+  wf_cfg k1_cfg /\ ReachK1S k1_cfg 100000 k6e_s /\ wf_op k6e_s k6e_op
+  /\ k1_in k1_cfg k6e_op /\ k1_op k1_cfg k6e_s k6e_op
+  /\ ~ k6_in 100000 k6e_op /\ ~ k6_op k6e_s k6e_op
+  /\ snd (step k1_cfg k6e_s k6e_op) = RPanic.
+Proof.
+  split; [exact k1_cfg_wf|]. split; [exact k6e_reachK1S|]. split; [exact I|].
+  split; [exact I|].
+  split; [cbn [k1_op k6e_op]; apply I_k1_pricing_of; eapply ReachK1_I_k1, ReachK1S_ReachK1, k6e_reachK1S|].
+  split; [|split; [|vm_compute; reflexivity]].
+  - intros H. cbn [k6_in k6e_op] in H.
+    specialize (H (2 ^ 255 - 1) ltac:(vm_compute; reflexivity)). revert H. vm_compute.
+    intros H; discriminate H.
+  - intros H. cbn [k6_op k6e_op] in H.
+    destruct (get (1, 7) (binds k6e_s)) as [b|] eqn:G; [|vm_compute in G; discriminate G].
+    specialize (H b (2 ^ 255 - 1) eq_refl ltac:(vm_compute; reflexivity)).
+    vm_compute in G. injection G as <-. revert H. vm_compute. intros H; discriminate H.
+Qed.
+
+(* the same messages with a top-up the genesis supply leaves room for are covered by the
+   input-only theorem: no panic (here they are simply refused, the owner holds 95000) *)
+Example C20_K6_small_topup_ok amt :
+  0 < amt -> 100000 + amt < INT_LIMIT ->
+  snd (step k1_cfg k1u_s (OUpdate 1 7 (CBase amt) None 0 42 true)) <> RPanic
+  /\ snd (step k1_cfg k6e_s (OEnable 1 7 (CBase amt) 42 true)) <> RPanic.
+Proof.
+  intros H0 Hlt.
+  assert (Hk : forall a, one_base_coin (CBase amt) = Ok a -> 100000 + a < INT_LIMIT).
+  { intros a Ha. cbn [one_base_coin] in Ha. destruct (0 <? amt); [|discriminate Ha].
+    injection Ha as <-. exact Hlt. }
+  split.
+  - apply (C20_no_panic_reachK1S k1_cfg 100000); [exact k1_cfg_wf|exact k1u_reachK1S|exact I|exact I|exact Hk].
+  - apply (C20_no_panic_reachK1S k1_cfg 100000); [exact k1_cfg_wf|exact k6e_reachK1S|exact I|exact I|exact Hk].
+Qed.
+
+(* EndBlock is unaffected by K6 as well: C20_expire_loop_clean / C20_no_panic_endblock assume
+   Inv only, and no top-up happens inside EndBlock *)
+
+(* ------------------------------------------------------------------ *)
 (* Determinism, the part that Gallina can express.
 
    The state machine is a function: [step] and [run] are Gallina functions, so equal inputs
@@ -975,12 +1313,13 @@ Proof.
   cbn [wf_op] in Ho. cbn [handle]. now apply C20_end_block_strict.
 Qed.
 
-(* ... so it never panics either (messages: under X-K1; EndBlock: unconditionally, and it
+(* ... so it never panics either (messages: under X-K1 and X-K6; EndBlock: unconditionally, and it
    does not even return an error) *)
 Theorem C20_no_panic_strict cfg s o :
-  wf_cfg cfg -> Reach cfg s -> wf_op s o -> k1_op cfg s o -> handle_strict cfg s o <> Panic.
+  wf_cfg cfg -> Reach cfg s -> wf_op s o -> k1_op cfg s o -> k6_op s o ->
+  handle_strict cfg s o <> Panic.
 Proof.
-  intros Hcfg Hr Ho Hk. pose proof (Reach_Inv cfg s Hcfg Hr) as HI.
+  intros Hcfg Hr Ho Hk Hk6. pose proof (Reach_Inv cfg s Hcfg Hr) as HI.
   rewrite C20_handle_strict by assumption. now apply C20_no_panic_msg.
 Qed.
 
@@ -1073,17 +1412,31 @@ Ltac k1_run_tac :=
 Example x20_cfg_wf : wf_cfg x20_cfg.
 Proof. unfold wf_cfg. repeat match goal with |- _ /\ _ => split end; zc. Qed.
 
+Ltac k16_run_tac :=
+  cbn [k16_run]; repeat match goal with |- _ /\ _ => split end;
+  try exact I;
+  try (unfold wf_op, ctx_fresh, k1_in, k1_bound; repeat match goal with |- _ /\ _ => split end; zc).
+
+(* the genesis state mints 2000 *)
+Example x20_s0_reachK1S : ReachK1S x20_cfg 2000 x20_s0.
+Proof. apply ReachK1S_init; [lia|lia|wf_funding_tac|reflexivity]. Qed.
+
 Example x20_s0_reachK1 : ReachK1 x20_cfg x20_s0.
-Proof. apply ReachK1_init; [lia|lia|wf_funding_tac]. Qed.
+Proof. exact (ReachK1S_ReachK1 _ _ _ x20_s0_reachK1S). Qed.
 
-(* the hypotheses of C20_no_panic_run hold for the history ... *)
+(* the hypotheses of C20_no_panic_run hold for the history (no message carries a top-up) ... *)
+Example x20_k16_run : k16_run x20_cfg 2000 x20_s0 x20_ops.
+Proof. unfold x20_ops. k16_run_tac. Qed.
+
 Example x20_k1_run : k1_run x20_cfg x20_s0 x20_ops.
-Proof. unfold x20_ops. k1_run_tac. Qed.
+Proof. exact (k16_run_k1_run _ _ _ _ x20_k16_run). Qed.
 
-(* ... so no step panics and every state of the history is ReachK1 (hence Reach, Inv, I_k1) *)
+(* ... so no step panics and every state of the history is ReachK1S (hence ReachK1, Reach,
+   Inv, I_k1, supply <= 2000) *)
 Example x20_no_panic :
-  ~ In RPanic (outcomes x20_cfg x20_s0 x20_ops) /\ ReachK1 x20_cfg (run x20_cfg x20_s0 x20_ops).
-Proof. exact (C20_no_panic_run _ _ _ x20_cfg_wf x20_s0_reachK1 x20_k1_run). Qed.
+  ~ In RPanic (outcomes x20_cfg x20_s0 x20_ops)
+  /\ ReachK1S x20_cfg 2000 (run x20_cfg x20_s0 x20_ops).
+Proof. exact (C20_no_panic_run _ _ _ _ x20_cfg_wf x20_s0_reachK1S x20_k16_run). Qed.
 
 (* in fact every message is accepted *)
 Example x20_outcomes : outcomes x20_cfg x20_s0 x20_ops = repeat ROk 9.
@@ -1106,7 +1459,7 @@ Qed.
 Example x20_malformed_response :
   let s := x20_at 5 in
   let o := ORespond (x20_c, 1, 1, 0) 11 0 9 false true in
-  Inv x20_cfg s /\ wf_op s o /\ k1_op x20_cfg s o
+  Inv x20_cfg s /\ wf_op s o /\ k1_op x20_cfg s o /\ k6_op s o
   /\ (exists sa sb, slash x20_cfg s (x20_c, 1, 1, 0) = Ok sa
                     /\ refund_fee sa (x20_c, 1, 1, 0) 20 100 = Some sb)
   /\ get (1, 11) (binds (x20_at 6)) = Some (mkBinding 180 x20_raw 2 false 1005 10)
@@ -1114,7 +1467,7 @@ Example x20_malformed_response :
   /\ bal (x20_at 5) Deposit = 640 /\ bal (x20_at 6) Deposit = 580.
 Proof.
   cbv zeta. split; [apply Reach_Inv; [exact x20_cfg_wf|apply ReachK1_Reach, x20_at_reachK1]|].
-  split; [exact I|]. split; [exact I|]. split; [|vm_compute; repeat split].
+  split; [exact I|]. split; [exact I|]. split; [exact I|]. split; [|vm_compute; repeat split].
   eexists. eexists. split; vm_compute; reflexivity.
 Qed.
 
